@@ -300,7 +300,7 @@ def run_replay_file(path):
     sys.path.insert(0, os.path.dirname(os.path.dirname(os.path.abspath(__file__))))
     with open(path) as f:
         doc = json.load(f)
-    if doc.get("kind") in ("sim_monitor", "fn_monitor", "resume_monitor", "stoch_monitor", "exception"):
+    if doc.get("kind") in ("sim_monitor", "fn_monitor", "resume_monitor", "stoch_monitor", "exception", "algo_monitor", "pair_monitor"):
         sys.path.insert(0, REPO_FOR_NATIVE())
         from rt import drivers
         reproduced, text = drivers.replay_file(doc)
